@@ -5,6 +5,7 @@ import (
 	stdbzip2 "compress/bzip2"
 	"fmt"
 	"io/ioutil"
+	"strings"
 
 	"github.com/dsnet/compress/xflate"
 	"github.com/dsnet/compress/xflate/internal/meta"
@@ -167,6 +168,42 @@ func runC12(r *vhlib.Run) {
 	for i := 0; i < n; i++ {
 		cfg := randXWConfig(rng)
 		c12XFlate(r, m, cfg, randXWOps(rng, 2+rng.Intn(14), 50), "random")
+	}
+	// a destination that fails once (possibly after a short write) and then works
+	// again: every Flush that still returns nil promises recoverability of what the
+	// destination holds
+	nf := 200
+	if !r.Quick() {
+		nf = 4000
+	}
+	for i := 0; i < nf; i++ {
+		cfg := randXWConfig(rng)
+		ops := randXWOps(rng, 3+rng.Intn(20), 40)
+		var bb bytes.Buffer
+		clean := runXW(cfg, ops, nil, &bb)
+		if clean.NewErr != "nil" || len(clean.Sink) == 0 {
+			continue
+		}
+		fs := &faultSink{At: rng.Intn(len(clean.Sink)), Kind: rng.Intn(2), Once: true}
+		res := runXW(cfg, ops, fs, &fs.Buf)
+		r.Eval("transient-sink-fault", true, []byte(fmt.Sprint(cfg, fs.At, fs.Kind)), []byte(strings.Join(opsStrings(ops), " ")))
+		if res.Panic != "" {
+			continue // C08/C13 report panics
+		}
+		got := fs.Buf.Bytes()
+		for k, p := range res.FlushAt {
+			if p <= fs.At || fs.Fired == 0 {
+				continue // flush points before the fault are covered above
+			}
+			r.Hist["flush-nil-after-transient-fault"]++
+			want := res.Written[:res.FlushIn[k]]
+			out, cls, _ := stdInflateObs(got[:p])
+			if !(len(out) >= len(want) && bytes.Equal(out[:len(want)], want)) || (cls != "UEOF" && cls != "nil") {
+				r.Violate("flushed-data-not-recoverable", fmt.Sprintf("sink failed once at byte %d; a later Flush returned nil with %d sink bytes, decoder gives %d bytes (%s), %d were written", fs.At, p, len(out), cls, len(want)),
+					map[string]interface{}{"level": cfg.Level, "chunk": cfg.ChunkSize, "index": cfg.Index, "ops": opsStrings(ops), "sink_fails_once_at": fs.At, "fault_kind": fs.Kind})
+				break
+			}
+		}
 	}
 	// NoCompression with user data that looks like XFLATE structure: meta blocks and a complete nested stream
 	for i := 0; i < 4; i++ {
